@@ -174,6 +174,17 @@ def race_oracle(run, stream, timeout=3000):
     rc, o, dt = sh([out, stream, '-seed', str(run.seed), '-tier', run.tier, '-out', run.outdir], cwd=BUILD, env=env, timeout=timeout)
     meta_p = os.path.join(run.outdir, stream + '.json')
     if rc != 0 or not os.path.exists(meta_p):
+        # the Go runtime stops the process on unsynchronised map access ("fatal error: concurrent map ..."): that, and any
+        # race report printed before it, is the observation
+        m = re.search(r'fatal error: (concurrent map[^\n]*)', o)
+        if m or 'WARNING: DATA RACE' in o:
+            what = m.group(1) if m else 'data race'
+            body = o[o.find('WARNING: DATA RACE'):] if 'WARNING: DATA RACE' in o else o[o.find('fatal error:'):]
+            frames = [l.strip() for l in body.split('\n') if 'github.com/ldclabs/cose' in l or 'main.' in l]
+            run.fail(source='race:' + stream, op='data-race', what='the Go runtime / race detector stopped the stream: ' + what,
+                     input=' | '.join(frames[:6])[:800], observed=body.strip()[:1500], expected='no unsynchronised access', case=' | '.join(frames[:4])[:300])
+            run.notes['race_detector'] = {'stream': stream, 'crashed': True, 'wall_s': round(dt, 1)}
+            return None
         run.broke('harness stream %s failed under the race detector (rc=%d)' % (stream, rc), o[-1500:])
         return None
     meta = json.load(open(meta_p))
